@@ -353,6 +353,27 @@ def run_with_snapshots(ctx, cfg, path, load, snap_dir, label):
     counter.hook = hook
     error = None
     threaded = cfg["formulation"] == "MDF" and cfg["mda"] == "MDAJacobi/threads"
+    fail_at = cfg.get("fail_first_at", 0)
+    if fail_at:
+        # a first execution in which a discipline RAISES at its fail_at-th call (the user catches the error and executes
+        # the scenario again): the backup goes on afterwards, crash points of both executions are checked (wave 11, C12l)
+        armed = [True]
+
+        def failing_hook(k):
+            hook(k)
+            if armed[0] and k == fail_at:
+                armed[0] = False
+                raise RuntimeError("injected discipline failure")
+
+        counter.hook = failing_hook
+        with rec:
+            try:
+                sc.execute(**algo_settings(cfg, load))
+            except RuntimeError as exc:
+                if "injected discipline failure" not in str(exc):
+                    raise
+                ctx.probe("first_execution_failed_then_executed_again")
+        sc.execution_status.value = sc.execution_status.Status.DONE
     with rec:
         try:
             if threaded:
@@ -413,6 +434,8 @@ def draw_config(t):
         cfg["normalize"] = False
         if cfg["algo"] == "CustomDOE":
             cfg["samples"] = [[t.randint(-4, 4, f"s[{i}][{j}]") / 2.0 for j in range(cfg["nx"])] for i in range(cfg["n_samples"])]
+        if cfg["formulation"] != "MDF" and t.flag(0.25, "first_execution_fails"):
+            cfg["fail_first_at"] = t.randint(1, 4, "fail_first_at")
     return cfg
 
 
@@ -445,6 +468,8 @@ def run(ctx):
             n_nonempty += 1
     # --- restarts ---------------------------------------------------------------------------
     candidates = [k for k in range(1, K + 1) if ref["snaps"][k][0] is not None]
+    if cfg.get("fail_first_at"):
+        candidates = []  # (failed-then-re-executed runs: crash images only, no restart protocol)
     if ctx.tier == "thorough" and t.flag(0.5, "restart_all") and len(candidates) <= 150:
         chosen = candidates
     elif ctx.tier == "thorough" and candidates:
@@ -484,7 +509,7 @@ def run(ctx):
     # --- real deaths -------------------------------------------------------------------------
     n_real = 0
     threaded = cfg["formulation"] == "MDF" and cfg["mda"] == "MDAJacobi/threads"
-    if K and not threaded and t.flag(0.5 if ctx.tier == "quick" else 0.8, "real_death"):
+    if K and not threaded and not cfg.get("fail_first_at") and t.flag(0.5 if ctx.tier == "quick" else 0.8, "real_death"):
         for i in range(1 + t.choice(2, "n_real")):
             k = 1 + t.choice(K, f"real_k[{i}]")
             real_death_crosscheck(ctx, cfg, ref, k, scratch, sig_base)
